@@ -23,6 +23,15 @@ fn esi_list(rng: &mut Rng, K: usize, n_first: usize, n_rand: usize) -> Vec<u32> 
         v.push(rng.range(K as u64, (1 << 24) - 1) as u32);
     }
     v.extend([(1 << 24) - 1, (1 << 24) - 2, (1 << 24) - 3]);
+    // internal symbol ids at and next to the byte boundaries of X (Rand[X, ...] works on the bytes of X)
+    for k in [8u32, 16, 24] {
+        for d in [-1i64, 0, 1] {
+            let e = (1i64 << k) + d - (p.Kp - K) as i64;
+            if e >= K as i64 && e < 1 << 24 {
+                v.push(e as u32);
+            }
+        }
+    }
     for X in super::c15::hostile_isis(&p) {
         let e = X as i64 - (p.Kp - K) as i64;
         if e >= K as i64 && e < 1 << 24 {
